@@ -67,13 +67,16 @@ class Ctx:
         return R(v)
 
     # path explorer ----------------------------------------------------------
-    def feasible(self, extra, timeout=20000):
+    def feasible(self, extra, timeout=20000, full=False):
         s = z3.Solver()
         s.set("timeout", timeout)
         s.add(self.assume)
         s.add(self.side)
         s.add(self.pc)
-        s.add(axioms(self))
+        # path decisions use the cheap (linear-size) part of the axioms: an
+        # over-approximation of feasibility; empty paths are filtered at the
+        # end of the path with the full set
+        s.add(axioms(self) if full else light_axioms(self))
         s.add(extra)
         self.feas_queries += 1
         r = s.check()
@@ -394,6 +397,9 @@ class R:
             return int(self.v)
         raise TypeError("symbolic real used as an int")
 
+    def item(self):
+        return self
+
     # numpy ufunc dispatch on object arrays
     def exp(self):
         return uexp(self)
@@ -633,10 +639,33 @@ def csqrt(zc):
     return C(er, ei)
 
 
+def light_axioms(c):
+    out = []
+    A = c.apps
+    for (a,), v in A.get("exp", []):
+        out.append(v > 0)
+    for (a,), v in A.get("sqrt", []):
+        out.append(z3.Implies(a >= 0, z3.And(v >= 0, v * v == a)))
+    for (b, e), v in A.get("pow", []):
+        out.append(z3.Implies(b > 0, v > 0))
+    for ((a1,), v1), ((a2,), v2) in itertools.combinations(A.get("exp", []), 2):
+        out.append(z3.Implies(a1 < a2, v1 < v2))
+        out.append(z3.Implies(a2 < a1, v2 < v1))
+        out.append(z3.Implies(a1 == a2, v1 == v2))
+    return out
+
+
+CUBIC_CAP = 14  # families with more applications get no three-way law instances
+
+
 def axioms(c, extra_pairs=True):
     """Instances of the listed laws over the recorded applications."""
     out = []
     A = c.apps
+
+    def few(name):
+        lst = A.get(name, [])
+        return lst if len(lst) <= CUBIC_CAP else []
 
     def ack(lst):
         for (a1, v1), (a2, v2) in itertools.combinations(lst, 2):
@@ -652,15 +681,20 @@ def axioms(c, extra_pairs=True):
     for (t,), v in A.get("exp", []):
         for (a,), w in A.get("log", []):
             out.append(z3.Implies(a == v, w == t))  # log(exp t) = t
+            out.append(z3.Implies(a * v == 1, w == -t))  # log(1 / exp t) = -t
+            out.append(z3.Implies(z3.And(a > 0, a <= v), w <= t))  # monotone against exp
+            out.append(z3.Implies(z3.And(a > 0, a >= v), w >= t))
+            out.append(z3.Implies(z3.And(a > 0, a < v), w < t))
+            out.append(z3.Implies(z3.And(a > 0, a > v), w > t))
             out.append(z3.Implies(z3.And(a > 0, t == w), v == a))  # exp(log a) = a
-    for ((a1,), v1), ((a2,), v2), ((a3,), v3) in itertools.permutations(A.get("exp", []), 3):
+    for ((a1,), v1), ((a2,), v2), ((a3,), v3) in itertools.permutations(few("exp"), 3):
         out.append(z3.Implies(a1 + a2 == a3, v1 * v2 == v3))
     for ((a1,), v1), ((a2,), v2) in itertools.permutations(A.get("exp", []), 2):
         out.append(z3.Implies(a1 + a2 == 0, v1 * v2 == 1))
     for ((a1,), v1), ((a2,), v2) in itertools.combinations(A.get("log", []), 2):
         out.append(z3.Implies(z3.And(a1 > 0, a2 > 0, a1 < a2), v1 < v2))
         out.append(z3.Implies(z3.And(a1 > 0, a2 > 0, a2 < a1), v2 < v1))
-    for ((a1,), v1), ((a2,), v2), ((a3,), v3) in itertools.permutations(A.get("log", []), 3):
+    for ((a1,), v1), ((a2,), v2), ((a3,), v3) in itertools.permutations(few("log"), 3):
         out.append(z3.Implies(z3.And(a1 > 0, a2 > 0, a1 * a2 == a3), v1 + v2 == v3))
     for (a,), v in A.get("log", []):
         out.append(z3.Implies(a == 1, v == 0))
@@ -680,13 +714,16 @@ def axioms(c, extra_pairs=True):
         out.append(z3.Implies(z3.And(b > 0, 4 * e == -1), v * v * v * v * b == 1))
         out.append(z3.Implies(z3.And(b > 0, 2 * e == -1), v * v * b == 1))
     P = A.get("pow", [])
-    for ((b1, e1), v1), ((b2, e2), v2), ((b3, e3), v3) in itertools.permutations(P, 3):
+    for ((b1, e1), v1), ((b2, e2), v2), ((b3, e3), v3) in itertools.permutations(P if len(P) <= CUBIC_CAP else [], 3):
         out.append(z3.Implies(z3.And(b1 == b2, b2 == b3, b1 > 0, e1 + e2 == e3), v1 * v2 == v3))
     for ((b1, e1), v1), ((b2, e2), v2) in itertools.permutations(P, 2):
         out.append(z3.Implies(z3.And(b1 == b2, b1 > 0, 2 * e1 == e2), v1 * v1 == v2))
         out.append(z3.Implies(z3.And(b1 == b2, b1 > 0, e1 + e2 == 0), v1 * v2 == 1))
         out.append(z3.Implies(z3.And(b1 == b2, b1 > 0, e1 + e2 == 1), v1 * v2 == b1))
         out.append(z3.Implies(z3.And(b1 == b2, b1 > 0, e1 == e2 + 1), v1 == v2 * b1))
+        out.append(z3.Implies(z3.And(b1 == b2, b1 > 0, e1 == 3 * e2), v1 == v2 * v2 * v2))
+        out.append(z3.Implies(z3.And(b1 == b2, b1 > 0, e1 == -3 * e2), v1 * v2 * v2 * v2 == 1))
+        out.append(z3.Implies(z3.And(b1 == b2, b1 > 0, e1 == -2 * e2), v1 * v2 * v2 == 1))
         # (b^e1) with b = c^k is not instantiated; same exponent, product of bases:
         out.append(z3.Implies(z3.And(e1 == e2, b1 > 0, b2 > 0, b1 * b2 == 1), v1 * v2 == 1))
     for (a,), v in A.get("gamma", []):
@@ -774,8 +811,49 @@ def axioms(c, extra_pairs=True):
 # arrays / numpy shim
 
 
+def _concrete_key(key):
+    """object arrays of symbolic booleans used as masks are decided element by
+    element on the current path (the path explorer forks where both outcomes
+    are feasible), then numpy does the indexing"""
+    if isinstance(key, np.ndarray) and key.dtype == object and key.size and all(isinstance(e, (B, bool, np.bool_)) for e in key.ravel()):
+        out = np.zeros(key.shape, bool)
+        for idx in np.ndindex(key.shape):
+            out[idx] = bool(key[idx])
+        return out
+    if isinstance(key, tuple):
+        return tuple(_concrete_key(k) for k in key)
+    return key
+
+
 class XArr(np.ndarray):
     """object ndarray of R / C"""
+
+    def __getitem__(self, key):
+        r = np.ndarray.__getitem__(self, _concrete_key(key))
+        return r
+
+    def __setitem__(self, key, val):
+        np.ndarray.__setitem__(self, _concrete_key(key), val)
+
+    # comparisons give object arrays of symbolic booleans (numpy would truth-test every element)
+    def _cmp(self, o, op):
+        import operator
+
+        f = np.frompyfunc(getattr(operator, op), 2, 1)
+        r = f(np.asarray(self, dtype=object), o if not isinstance(o, XArr) else np.asarray(o, dtype=object))
+        return r if isinstance(r, np.ndarray) else r
+
+    def __gt__(self, o):
+        return self._cmp(o, "gt")
+
+    def __ge__(self, o):
+        return self._cmp(o, "ge")
+
+    def __lt__(self, o):
+        return self._cmp(o, "lt")
+
+    def __le__(self, o):
+        return self._cmp(o, "le")
 
     def __array_wrap__(self, arr, context=None, return_scalar=False):
         if arr.ndim == 0:
@@ -813,7 +891,7 @@ def xvec(names):
 
 def _ufunc(method, fallback):
     def call(e):
-        if isinstance(e, (R, C)):
+        if isinstance(e, (R, C)) or hasattr(e, "is_dual"):
             return getattr(e, method)()
         if isinstance(e, complex):
             return getattr(C.of(e), method)()
@@ -824,7 +902,7 @@ def _ufunc(method, fallback):
     def wrapped(x, *a, **k):
         if isinstance(x, np.ndarray) and x.dtype == object:
             return f(x).view(XArr)
-        if isinstance(x, (R, C)):
+        if isinstance(x, (R, C)) or hasattr(x, "is_dual"):
             return call(x)
         if isinstance(x, np.ndarray):
             return f(x.astype(object)).view(XArr)
@@ -854,11 +932,60 @@ class XNP:
     def pi(self):
         return ctx().PI()
 
+    @property
+    def nan(self):
+        # a NaN placed in a never-selected np.where branch: an unconstrained real
+        # (sound as long as the result does not depend on it, which the query establishes)
+        return R(ctx().fresh("nan"))
+
+    ARANGE_CAP = 24
+
+    def arange(self, start, stop=None, step=1, **k):
+        if stop is None:
+            start, stop = 0, start
+        if not any(isinstance(a, R) and not a.is_const() for a in (start, stop, step)):
+            return np.arange(float(R(start).v), float(R(stop).v), float(R(step).v))
+        # length split over the admissible values by the path explorer
+        start, stop, step = R(start), R(stop), R(step)
+        vals = []
+        kk = 0
+        while True:
+            v = start + step * kk
+            if not (v < stop):
+                break
+            vals.append(v)
+            kk += 1
+            if kk >= XNP.ARANGE_CAP:
+                # bound of the exploration: longer ranges are cut (recorded as a cap hit)
+                c = ctx()
+                c.pc.append(z3.Not(zt(start + step * kk) < zt(stop)))
+                c.cap_hits = getattr(c, "cap_hits", 0) + 1
+                break
+        return xarr(vals) if vals else np.zeros(0)
+
+    def logical_and(self, a, b):
+        a_, b_ = np.broadcast_arrays(np.asarray(a, dtype=object), np.asarray(b, dtype=object))
+        out = np.empty(a_.shape, dtype=object)
+        for idx in np.ndindex(a_.shape):
+            x, y = a_[idx], b_[idx]
+            out[idx] = (x & y) if isinstance(x, B) or isinstance(y, B) else bool(x) and bool(y)
+        return out
+
+    def squeeze(self, a, *args, **k):
+        if isinstance(a, (R, C)):
+            o = np.empty((), dtype=object)
+            o[()] = a
+            return o.view(XArr)
+        return np.squeeze(a, *args, **k)
+
     def _filled(self, shape, v, dtype):
         if isinstance(shape, (int, np.integer)):
             shape = (shape,)
         out = np.empty(tuple(shape), dtype=object)
-        kind = np.dtype(dtype).kind if dtype is not None else "f"
+        try:
+            kind = np.dtype(dtype).kind if dtype is not None else "f"
+        except TypeError:
+            kind = "f"  # e.g. the shadowed builtin float
         for idx in np.ndindex(out.shape):
             out[idx] = C(v, 0) if kind == "c" else R(v)
         return out.view(XArr)
@@ -918,6 +1045,9 @@ class XNP:
             for idx in np.ndindex(b.shape):
                 out[idx] = self.power(b[idx], e, dtype)
             return out.view(XArr)
+        if hasattr(b, "is_dual"):
+            r = b ** e
+            return r
         r = upow(b, e)
         if dtype is complex or (dtype is not None and np.dtype(dtype).kind == "c"):
             # complex principal power of a real base; for base > 0 it is real
@@ -943,6 +1073,8 @@ class XNP:
 def ite(c, a, b):
     if isinstance(c, (bool, np.bool_)):
         return a if c else b
+    if hasattr(a, "is_dual") or hasattr(b, "is_dual"):
+        return type(a if hasattr(a, "is_dual") else b).ite(c, a, b)
     if isinstance(c, B):
         if isinstance(a, C) or isinstance(b, C):
             a, b = C.of(a), C.of(b)
